@@ -8,7 +8,7 @@ lines = [l.rstrip("\n") for l in open(os.path.join(VERIF, "notes", "seeded_resul
 latest = {}
 strengthened = set()
 for l in lines:
-    m = re.match(r"(\S+) (C\d+) (/tmp/seed([23]?)-(C\d+)/out/(\d+)) \| (.*) \| (.*)", l)
+    m = re.match(r"(\S+) (C\d+) (/tmp/seed([234]?)-(C\d+)/out/(\d+)) \| (.*) \| (.*)", l)
     if m:
         key = (m.group(2), (("r%s-" % m.group(4)) if m.group(4) else "") + m.group(6))
         if m.group(8).startswith("MISSED") or "after strengthening" in m.group(8):
